@@ -46,5 +46,6 @@ for c in checks:
     out['ran'].append(dict(check=c, exit=rc, violations=len(vio), undecided=len(und), first=first, summary=summ[-1] if summ else o[-300:], seconds=round(time.time() - t, 1),
                            kinds=sorted({('obligation' if '-obligation-' in l else 'bounded') for l in vio})))
 shutil.rmtree(d1, ignore_errors=True)
+shutil.rmtree(os.path.join('/verif', '.scratch', os.path.basename(d1)), ignore_errors=True)
 print(json.dumps(out, indent=1))
 json.dump(out, open(os.path.join(src, 'try_result.json'), 'w'), indent=1)
